@@ -171,6 +171,17 @@ pub fn property() -> Property {
                 oracle,
             ),
             prop_sub("graph.large", 1_000, 8_000, large_case, oracle),
+            prop_sub(
+                "graph.concat_limits",
+                3_000,
+                40_000,
+                |_| proptest::collection::vec(any::<u32>(), 8..40).prop_map(crate::gen::graphs::build_concat_case),
+                |c: &GraphCase, obs| {
+                    run_case(c, obs)?;
+                    obs.nontrivial();
+                    Ok(())
+                },
+            ),
         ],
     }
 }
